@@ -1,6 +1,9 @@
 """C09 serialization round trip: sibling agreement (see DESIGN.md §5 C09, §4 A4)."""
 import bitprov
 import a4_header
+import a4_twin
+import json, os
+from vlib.core import VERIF
 
 
 def run(facts, tier):
@@ -14,6 +17,11 @@ def run(facts, tier):
     obs += o
     rules.append({"rule": "header", "instances": len([x for x in o if x["status"] != "info"]), "min": 39,
                   "text": "byte writers honour header_size_bytes (allocation, cursor start, end pointer, forwarding)"})
+    armed = set(json.load(open(os.path.join(VERIF, "spec", "twin_armed.json")))["armed"])
+    o = a4_twin.obligations(facts, armed)
+    obs += o
+    rules.append({"rule": "writer-twin", "instances": len([x for x in o if x["status"] != "info"]), "min": 20,
+                  "text": "stream writer and byte writer of one type are twin programs modulo the write primitive (fields, widths, order, conditions, state flowing into the image)"})
     return {
         "level": "other",
         "rules": rules,
